@@ -19,8 +19,8 @@ from ..runner import Outcome
 ID = "C12"
 LEVEL = "fault_enumeration"
 RULE = (
-    "Valid base inputs from C16's generator (1-3 assets, default column layout) + exactly one fault drawn from a catalogue "
-    "of ~60 fault classes grounded in C12's statement (unknown asset/exchange/holder, other asset, timestamp without zone "
+    "Valid base inputs (1-3 assets, default column layout, flavours mixed / buy-only / income-only / transfer-heavy) + exactly "
+    "one fault drawn - weighted by the number of positions where it applies - from a catalogue of ~115 fault classes grounded in C12's statement (unknown asset/exchange/holder, other asset, timestamp without zone "
     "or unparseable, type not allowed in its table, zero/negative amounts and fees, zero price where required, "
     "received > sent, both fees, text / numeric-looking text / empty cell in a mandatory numeric field, row shorter than "
     "the mapped columns, broken table structure in 12 variants, config faults in 17 variants, CLI faults in 10 variants), "
